@@ -8,7 +8,7 @@ Local Open Scope nat_scope.
 
 Definition is_fun_op (o : oop) : bool :=
   match o with
-  | FAssign _ _ _ | FAssignNull _ | FCopyAssign _ | FMoveAssign _ | FSelfCopyAssign _ | FSelfMoveAssign _
+  | FAssign _ _ _ | FAssignCr _ _ _ | FAssignNull _ | FCopyAssign _ | FMoveAssign _ | FSelfCopyAssign _ | FSelfMoveAssign _
   | FCopyConstruct _ | FMoveConstruct _ | FSwap | FSelfSwap _ | FInvoke _ => true
   | _ => false
   end.
